@@ -57,6 +57,11 @@ struct vp_table {
     struct vp_area a[NAREA];
     struct vp_entry e[NREG];
     uint64_t cb_mask, cb_pat; /* callback validator: (bits & mask) == pat */
+    /* what an area WITHOUT registers records as first/last is meaningless (the
+     * property only speaks of the run of registers located in an area); the
+     * directly linked state therefore carries arbitrary values there, so that
+     * code relying on them is exposed (seed C02-E) */
+    uint32_t junk_first[NAREA], junk_last[NAREA];
 };
 
 /* ---------------------------------------------------------------- storage */
@@ -441,8 +446,8 @@ static void vp_link_direct(const struct vp_table *d)
         if (a >= d->nareas)
             break;
         unsigned n, first = ref_area_first(d, a, &n);
-        vp_areas[a].entry.first = n ? first : 0;
-        vp_areas[a].entry.last = n ? first + n - 1 : 0;
+        vp_areas[a].entry.first = n ? first : d->junk_first[a];
+        vp_areas[a].entry.last = n ? first + n - 1 : d->junk_last[a];
         vp_areas[a].entry.count = n;
     }
 }
